@@ -32,10 +32,12 @@ def stage_kind(name, t0, T=None):
 KINDS = ["A", "B", "C", "D", "E", "F", "G"]
 
 
-def build(names, coupling, via):
-    """names: stage kinds; via: per-stage 'direct' | 'clone' (from a template of the same kind)"""
+def build(names, coupling, via, start=0.3):
+    """names: stage kinds; via: per-stage 'direct' | 'clone' (from a template of the same kind) | 'clone_edit'
+    (clone, then one more constraint on that clone) | 'clone_der' (clone, then set_der again with another scale)"""
     stages = []
-    t = 0.3
+    t = start
+    der = "clone_der" in via
     for i, nm in enumerate(names):
         d = stage_kind(nm, round(t, 3))
         t += d["TT"]
@@ -45,9 +47,15 @@ def build(names, coupling, via):
         if via[i] != "direct":
             sd["tmpl"] = nm
             # the template is declared with its own (different) default horizon; clones override t0/T
-            sd["tmpl_d"] = stage_kind(nm, 0.0, 1.0)
+            sd["tmpl_d"] = stage_kind(nm, 0.7, 1.0)
             if sd["tmpl_d"]["horizon"] != "fixed":
                 sd["tmpl_d"] = dict(sd["tmpl_d"]); sd["tmpl_d"]["horizon"] = "fixed"
+            if der:
+                # the template declares a derivative scale; one clone re-declares its dynamics with another one
+                sd["tmpl_d"]["scales"] = {"der_x": 3.0}
+                d["scales"] = {"der_x": 7.0 if via[i] == "clone_der" else 3.0}
+                if via[i] == "clone_der":
+                    sd["der_scale"] = 7.0
         if via[i] == "clone_edit":
             sd["extra_cons"] = [P.con("xu_between")]
         stages.append(sd)
@@ -88,6 +96,13 @@ def cases(tier):
                 out.append(dict(spec=build(names, couplings(names)[1 if n >= 2 else 0], ["clone"] * n), dev=list(names) + ["clone"]))
                 out.append(dict(spec=build(names, [], ["clone"] + ["direct"] * (n - 1)), dev=list(names) + ["clone0"]))
                 out.append(dict(spec=build(names, [], ["clone_edit"] + ["clone"] * (n - 1)), dev=list(names) + ["clone_edit"]))
+            if n <= 2:
+                # a clone that overrides the template's non-zero start time with 0
+                out.append(dict(spec=build(names, couplings(names)[1 if n >= 2 else 0], ["clone"] * n, start=0.0), dev=list(names) + ["clone", "t0=0"]))
+                # a derivative scale re-declared on one clone only (siblings and template keep theirs)
+                out.append(dict(spec=build(names, [], ["clone_der"] + ["clone"] * (n - 1)), dev=list(names) + ["clone_der"]))
+                if n == 2:
+                    out.append(dict(spec=build(names, [], ["clone", "clone_der"]), dev=list(names) + ["clone_der1"]))
     # one method INSTANCE handed to every stage (documented as "will not be modified"): same NLP as with fresh instances
     for nm in ("A", "B", "C", "D", "E"):
         for n in (2, 3):
